@@ -556,4 +556,102 @@ theorem delete_old_confined_partial (fold : List Nat → List Nat) (hf : FoldAsc
     simp only [deleteOldG, this, if_true] at hm
     exact Or.inl hm
 
+/-! ## 9. The whole `update_working_tree`: deletions, then writes with a FRESH verified-directory cache per path -/
+
+/-- **`uwt_write_confined`** — the add/modify phase as coded now (`Gen.uwtFreshCache`: every
+`verify_leading_dirs` call of `update_working_tree` gets a new `[]`), for EVERY state it can start from (whatever
+the delete phase and earlier writes did: directories removed, symlinks created, any stale `safe` list in the
+state), every emptiness oracle, root, validator and entry list: every mkdir / rmdir / unlink / symlink /
+open-for-write / chmod acts, after symlink resolution, strictly below the root and outside `root/.git`.
+(If the source starts sharing one cache across paths the translator emits `uwtFreshCache := false` and this proof no
+longer compiles; `shared_cache_counterexample` shows why.) -/
+theorem uwt_write_confined (fold : List Nat → List Nat) (hf : FoldAsciiOk fold) (v : Validator) (root : PPath)
+    (isEmpty : FS → PPath → Bool) :
+    ∀ (adds : List Entry) (st : St),
+      ∀ m ∈ (uwtWritePhaseG uwtFreshCache isEmpty (v.run fold) root adds st).1.log, m ∈ st.log ∨ Confined root m.target := by
+  have hg : uwtFreshCache = true := rfl
+  rw [hg]
+  have step : ∀ (e : Entry) (st : St), ∀ m ∈ (uwtWriteG true isEmpty (v.run fold) root e st).1.log,
+      m ∈ st.log ∨ Confined root m.target := by
+    intro e st m hm
+    by_cases hval : validatePath (v.run fold) e.path = true
+    · have hcl := validated_clean fold hf v e.path hval
+      have hne := splitOn_ne_nil pathSep e.path
+      obtain ⟨lead, last, hsplit⟩ : ∃ lead last, splitOn pathSep e.path = lead ++ [last] :=
+        ⟨_, _, (List.dropLast_concat_getLast hne).symm⟩
+      have hE := uwtWriteG_fresh_log (root := root) isEmpty (v.run fold) e st lead last hsplit (by rw [← hsplit]; exact hcl)
+      rcases hE m hm with h | ⟨i, hi1, hi2, ht⟩
+      · exact Or.inl h
+      · right
+        obtain ⟨_, _, c, rest, hsp, hc⟩ := lexical_confined fold hf v e.path hval root
+        have hs := validate_path_lexical fold hf v e.path hval c (by rw [hsp]; exact List.mem_cons_self)
+        refine ⟨c, rest.take (i - 1), ?_, hc, hs.1, hs.2.1, hs.2.2.1⟩
+        rw [ht, ← hsplit, hsp]
+        cases i with
+        | zero => omega
+        | succ i => simp
+    · have : validatePath (v.run fold) e.path = false := by simpa using hval
+      simp only [uwtWriteG, this, if_true] at hm
+      exact Or.inl hm
+  intro adds
+  induction adds with
+  | nil => intro st m hm; exact Or.inl hm
+  | cons e es ih =>
+    intro st m hm
+    simp only [uwtWritePhaseG] at hm
+    have h1 := step e st
+    generalize uwtWriteG true isEmpty (v.run fold) root e st = r at *
+    obtain ⟨st1, e1⟩ := r
+    cases e1 with
+    | some err => exact h1 m hm
+    | none =>
+      simp only [Step.andThen] at hm
+      rcases ih st1 m hm with h | h
+      · exact h1 m h
+      · exact Or.inr h
+
+/-- **`uwt_confined`**: `update_working_tree` as coded (guarded deletions of non-directories first, then blob/symlink
+writes with a fresh cache per path), from every file system: every mutating call is confined. -/
+theorem uwt_confined (fold : List Nat → List Nat) (hf : FoldAsciiOk fold) (v : Validator) (root : PPath)
+    (isEmpty : FS → PPath → Bool) (deletes : List Bytes) (adds : List Entry) (fs : FS) :
+    ∀ m ∈ (updateWorkingTree isEmpty (v.run fold) root deletes adds { fs := fs, log := [], safe := [] }).1.log,
+      Confined root m.target := by
+  intro m hm
+  unfold updateWorkingTree at hm
+  have hd := delete_confined fold hf v root deletes { fs := fs, log := [], safe := [] }
+  generalize deletePhase (v.run fold) root deletes { fs := fs, log := [], safe := [] } = r at *
+  obtain ⟨st1, e1⟩ := r
+  cases e1 with
+  | some err =>
+    rcases hd m hm with h | h
+    · cases h
+    · exact h
+  | none =>
+    simp only [Step.andThen] at hm
+    rcases uwt_write_confined fold hf v root isEmpty adds st1 m hm with h | h
+    · rcases hd m h with h' | h'
+      · cases h'
+      · exact h'
+    · exact h
+
+/-- **Why the cache must be fresh** (regression witness for the shared-cache variant).  After a delete phase that
+verified `w/0` as a directory and removed it, and a write that created `w/0 -> ../o`, a cache still naming `0` makes
+the write of `0/y` skip the lstat of `0` and go THROUGH the link: it creates `o/y` outside the work tree.  With a
+fresh cache the same entry is refused. -/
+def exFs2 : FS := fun q =>
+  if q = [[119]] then some .dir
+  else if q = [[111]] then some .dir
+  else if q = [[119], [48]] then some (.link [46, 46, 47, 111])   -- w/0 -> ../o
+  else none
+
+theorem shared_cache_counterexample :
+    (uwtWriteG false (fun _ _ => true) validateNtfs [[119]] ⟨[48, 47, 121], 0o100644, [7]⟩
+        { fs := exFs2, log := [], safe := [[48]] }).1.log = [.write [[111], [121]], .chmod [[111], [121]] 0o644] ∧
+    ¬ Confined [[119]] [[111], [121]] ∧
+    (uwtWriteG true (fun _ _ => true) validateNtfs [[119]] ⟨[48, 47, 121], 0o100644, [7]⟩
+        { fs := exFs2, log := [], safe := [[48]] }).2 = some .invalidPath := by
+  refine ⟨by decide, ?_, by decide⟩
+  rintro ⟨c, rest, h, _⟩
+  simp at h
+
 end Dulwich.Props.C17
